@@ -78,7 +78,7 @@ def compat (p : Ph) : PC → Prop
   | .oi k v c => p = .called (.orInsert k v c)
   | .oiEv k v c => p = .lin (.orInsert k v c) (some v)
   | .oiAdd k v c => p = .lin (.orInsert k v c) (some v)
-  | .clr => p = .called .clear
+  | .clr _ _ => p = .called .clear
   | .mLock sh l f => p = .called (.maint sh l f)
   | .mDrain m _ _ => inMaint m p
   | .mAdmit m _ => inMaint m p
@@ -339,7 +339,8 @@ theorem invP_compute {s s' : State} {t : Nat} {fail : Bool} (hi : InvP s) (h : s
 
 theorem invP_step {c : Cfg} {s s' : State} {t : Nat} {l : Label} (hi : InvP s) (h : step c s t l = some s') :
     InvP s' := by
-  cases l <;> simp only [step] at h
+  replace h := step_step0 h
+  cases l <;> simp only [step0] at h
   case call op a => exact invP_call hi h
   case advance d => simp at h; subst h; exact ⟨hi.wf⟩
   case read => exact invP_read hi h
@@ -358,6 +359,8 @@ theorem invP_step {c : Cfg} {s s' : State} {t : Nat} {l : Label} (hi : InvP s) (
   case oiEv => invp_step hi h stepOiEv
   case oiAdd => invp_step hi h stepOiAdd
   case clear => invp_step hi h stepClear
+  case clrAcq i => invp_step hi h stepClrAcq
+  case clrGet i => invp_step hi h stepClrGet
   case mLock => exact invP_mLock hi h
   case recv => invp_step hi h stepRecv
   case admit d => invp_step hi h stepAdmit
